@@ -163,7 +163,12 @@ class Sym:
         if u == 'n, d = z.shape':
             return None
         if u == 'if not self.is_adaptive_bandwidth:\n    self._adapt_bandwidth(kernel_mat)':
-            return None                                       # assigns self.bandwidth only (C19); L is the bandwidth in force afterwards
+            # assigns self.bandwidth only (C19); L is the bandwidth in force afterwards.  What it is handed is recorded: it must be (distance)^q
+            v = self.env.get('kernel_mat')
+            if v is None or v[0] != 'entry' or getattr(self, 'adapt_arg', None) is not None:
+                raise TranslationError(f'{self.cls}: _adapt_bandwidth is not handed a single (n_x, n_z) matrix')
+            self.adapt_arg = v[1]
+            return None
         if isinstance(st, ast.Assign) and len(st.targets) == 1 and isinstance(st.targets[0], ast.Name):
             self.env[st.targets[0].id] = self.val(st.value)
             return None
@@ -219,9 +224,16 @@ class Sym:
 
 def generate():
     tree = ast.parse(open(os.path.join(REPO, 'xrfm', 'rfm_src', 'kernels.py')).read())
-    g = {}
+    g = {}; ad = {}
     for cls in ('LaplaceKernel', 'LightLaplaceKernel', 'ProductLaplaceKernel', 'LpqLaplaceKernel', 'SumPowerLaplaceKernel'):
-        g[cls] = Sym(cls).run(_cls_method(tree, cls, '_get_kernel_matrix_impl'))
+        sy = Sym(cls)
+        g[cls] = sy.run(_cls_method(tree, cls, '_get_kernel_matrix_impl'))
+        ad[cls] = getattr(sy, 'adapt_arg', None)
+    for cls in ('LaplaceKernel', 'LightLaplaceKernel', 'ProductLaplaceKernel', 'LpqLaplaceKernel'):
+        if ad[cls] is None:
+            raise TranslationError(f'{cls}._get_kernel_matrix_impl never re-estimates the bandwidth (`if not self.is_adaptive_bandwidth: self._adapt_bandwidth(kernel_mat)` not found)')
+    if ad['SumPowerLaplaceKernel'] is not None:
+        raise TranslationError('SumPowerLaplaceKernel adapts its bandwidth (it is documented as constant-bandwidth only)')
     # _transform_m: None -> identity, vector -> elementwise product, matrix -> x @ mat
     tm = _cls_method(tree, 'Kernel', '_transform_m')
     body = [s for s in tm.body if not (isinstance(s, ast.Expr) and isinstance(s.value, ast.Constant))]
@@ -240,6 +252,26 @@ Definition gen_light (t : tmat) (L q : R) (x z : list R) : R := {g['LightLaplace
 Definition gen_product (t : tmat) (L q : R) (x z : list R) : R := {g['ProductLaplaceKernel']}.
 Definition gen_lpq (t : tmat) (L p q : R) (x z : list R) : R := {g['LpqLaplaceKernel']}.
 Definition gen_sum_power (t : tmat) (L q c : R) (power : nat) (x z : list R) : R := {g['SumPowerLaplaceKernel']}.
+
+(* what each kernel hands to _adapt_bandwidth when the bandwidth is re-estimated: the kernel-norm distance to the power q *)
+Definition gen_adapt_l2 (t : tmat) (q : R) (x z : list R) : R := {ad['LaplaceKernel']}.
+Definition gen_adapt_light (t : tmat) (q : R) (x z : list R) : R := {ad['LightLaplaceKernel']}.
+Definition gen_adapt_product (t : tmat) (q : R) (x z : list R) : R := {ad['ProductLaplaceKernel']}.
+Definition gen_adapt_lpq (t : tmat) (p q : R) (x z : list R) : R := {ad['LpqLaplaceKernel']}.
+Lemma gen_adapt_l2_is_distance_pow : forall t q x z, gen_adapt_l2 t q x z = pw (cdist2 (transform t x) (transform t z)) q.
+Proof.
+  intros. unfold gen_adapt_l2, cdist2. rewrite Rmax_right by apply sqrt_pos. destruct (Req_EM_T q 1) as [->|_]; [|reflexivity].
+  rewrite pw_one by apply sqrt_pos. reflexivity.
+Qed.
+Lemma gen_adapt_light_is_distance_pow : forall t q x z, gen_adapt_light t q x z = pw (sqrt (Rmax 0 (light_sq t x z))) q.
+Proof.
+  intros. unfold gen_adapt_light, light_sq. rewrite ?vdotR_scale_l. destruct (Req_EM_T q 1) as [->|_]; [|reflexivity].
+  rewrite pw_one by apply sqrt_pos. reflexivity.
+Qed.
+Lemma gen_adapt_product_is_distance_pow : forall t q x z, gen_adapt_product t q x z = pw (cdistp q (transform t x) (transform t z)) q.
+Proof. intros. unfold gen_adapt_product, cdistp. rewrite Rmax_right by (apply pw_nonneg, sum_abs_pow_nonneg). reflexivity. Qed.
+Lemma gen_adapt_lpq_is_distance_pow : forall t p q x z, gen_adapt_lpq t p q x z = pw (cdistp p (transform t x) (transform t z)) q.
+Proof. intros. unfold gen_adapt_lpq, cdistp. rewrite Rmax_right by (apply pw_nonneg, sum_abs_pow_nonneg). reflexivity. Qed.
 
 Lemma gen_l2_eq_model : forall t L q x z, gen_l2 t L q x z = laplace_l2 t L q x z.
 Proof.
